@@ -6,10 +6,20 @@
 //!
 //!   drv_parsers --cases <ndjson> --out <trace.ndjson> --dir <scratch> --random <n> [--only-cases]
 #![allow(dead_code)]
-use ant_bootstrap::{craft_valid_multiaddr_from_str, BootstrapCacheConfig, BootstrapCacheStore};
+use ant_bootstrap::{craft_valid_multiaddr_from_str, BootstrapCacheConfig, BootstrapCacheStore, PeersArgs, ANT_PEERS_ENV};
 use ant_evm::{AttoTokens, EvmNetwork, RewardsAddress};
-use ant_node_manager::add_services::config::PortRange;
+use ant_logging::LogFormat;
+use ant_node_manager::add_services::add_node;
+use ant_node_manager::add_services::config::{AddNodeServiceOptions, PortRange};
 use ant_node_manager::helpers::increment_port_option;
+use ant_node_manager::VerbosityLevel;
+use ant_service_management::auditor::AuditorServiceData;
+use ant_service_management::control::ServiceControl;
+use ant_service_management::error::Result as SvcResult;
+use ant_service_management::{DaemonServiceData, FaucetServiceData, NatDetectionStatus};
+use libp2p::multiaddr::Protocol;
+use libp2p::Multiaddr;
+use service_manager::ServiceInstallCtx;
 use ant_protocol::storage::{
     try_deserialize_record, try_serialize_record, Chunk, RecordHeader, RecordKind, Scratchpad, ScratchpadAddress, Transaction,
 };
@@ -35,7 +45,21 @@ mod wallet {
     pub mod error;
     #[path = "/repo/ant-cli/src/wallet/encryption.rs"]
     pub mod encryption;
+    /// ant-cli's `wallet::load_wallet_private_key` (wallet/mod.rs) is referenced by access/keys.rs
+    /// (get_vault_secret_key, not driven here); the real one prompts on the terminal.
+    pub(crate) fn load_wallet_private_key() -> color_eyre::Result<String> {
+        Err(color_eyre::eyre::eyre!("no wallet in the harness"))
+    }
 }
+/// ant-cli is a binary crate: its access/keys.rs (register signing key from the environment / key file) is
+/// included by path like wallet/encryption.rs; `crate::keys` and `crate::wallet` resolve as in ant-cli's main.rs.
+mod access {
+    #[path = "/repo/ant-cli/src/access/data_dir.rs"]
+    pub mod data_dir;
+    #[path = "/repo/ant-cli/src/access/keys.rs"]
+    pub mod keys;
+}
+pub use access::keys;
 use wallet::encryption::{decrypt_private_key, encrypt_private_key};
 
 const CODES_CAP: usize = 40;
@@ -47,6 +71,8 @@ struct Ctx {
     dir: PathBuf,
     nfile: u64,
     pool: std::collections::HashMap<(String, u64), (Vec<u8>, RecordKind)>,
+    /// node lists of non-empty registries against which accepted port ranges are checked
+    avail_nodes: Vec<Vec<NodeServiceData>>,
 }
 fn outcome<T, E>(r: &Result<Result<T, E>, String>) -> &'static str {
     match r {
@@ -268,12 +294,95 @@ fn port_events(cx: &mut Ctx, c: &Call, s: &str) {
         }
         // what `antctl add` does next with an accepted range: every port of it is compared with the recorded ones
         if (hi as u32) - (lo as u32).min(hi as u32) < 70_000 {
-            let a = guarded(|| ant_node_manager::helpers::check_port_availability(&range, &[]));
-            let out = match &a { Ok(Ok(())) => "ok", Ok(Err(_)) => "err", Err(_) => "panic" };
-            cx.t.emit(json!({"ev": "Avail", "src": c.src, "single": single, "lo": lo, "hi": hi, "out": out, "msg": msg_of(&a)}));
+            avail_event(cx, &range, &[], c.src);
+            // ... and with the ports a non-empty registry records (0, 65535 and 8081 among them)
+            let nodes = cx.avail_nodes.clone();
+            for k in 0..nodes.len() {
+                avail_event(cx, &range, &nodes[k], c.src);
+            }
         }
     }
 }
+fn avail_event(cx: &mut Ctx, range: &PortRange, nodes: &[NodeServiceData], src: &str) {
+    let (single, lo, hi) = match range { PortRange::Single(p) => (true, *p, *p), PortRange::Range(a, b) => (false, *a, *b) };
+    let recorded: Vec<u16> = nodes.iter().flat_map(|n| [n.metrics_port, n.node_port, Some(n.rpc_socket_addr.port())]).flatten().collect();
+    let used = recorded.iter().any(|p| lo <= *p && *p <= hi);
+    let a = guarded(|| ant_node_manager::helpers::check_port_availability(range, nodes));
+    let out = match &a { Ok(Ok(())) => "ok", Ok(Err(_)) => "err", Err(_) => "panic" };
+    cx.t.emit(json!({"ev": "Avail", "src": src, "single": single, "lo": lo, "hi": hi, "nodes": nodes.len(), "recorded": recorded, "used": used,
+        "out": out, "msg": msg_of(&a)}));
+}
+
+// ------------------------------------------------------------------ add_node on a loaded registry (u16 numbering)
+struct NoOs;
+impl ServiceControl for NoOs {
+    fn create_service_user(&self, _username: &str) -> SvcResult<()> { Ok(()) }
+    fn get_available_port(&self) -> SvcResult<u16> { Ok(40000) }
+    fn install(&self, _install_ctx: ServiceInstallCtx, _user_mode: bool) -> SvcResult<()> { Ok(()) }
+    fn get_process_pid(&self, _path: &Path) -> SvcResult<u32> { Ok(1) }
+    fn start(&self, _service_name: &str, _user_mode: bool) -> SvcResult<()> { Ok(()) }
+    fn stop(&self, _service_name: &str, _user_mode: bool) -> SvcResult<()> { Ok(()) }
+    fn uninstall(&self, _service_name: &str, _user_mode: bool) -> SvcResult<()> { Ok(()) }
+    fn wait(&self, _delay: u64) {}
+}
+/// A registry file holding one service with the given number is loaded, then `antctl add` (add_node) is run on
+/// it with the given count and node port range: an answer (names or an error), never an overflow.
+fn add_node_event(cx: &mut Ctx, number: u16, count: Option<u16>, ports: Option<&str>, src: &str) {
+    let root = cx.dir.join("addnode");
+    let _ = std::fs::remove_dir_all(&root);
+    std::fs::create_dir_all(&root).expect("dir");
+    std::env::set_var("XDG_DATA_HOME", root.join("xdg"));
+    std::env::set_var("HOME", root.join("home"));
+    let src_bin = root.join("antnode");
+    std::fs::write(&src_bin, b"#!/bin/sh\n").expect("bin");
+    let mut reg = sample_registry(&mut cx.r, &root.join("node_registry.json"), 0);
+    reg.nodes[0].number = number;
+    reg.nodes[0].service_name = format!("antnode{number}");
+    reg.save().expect("save registry");
+    let loaded = guarded(|| NodeRegistry::load(&root.join("node_registry.json")));
+    let Ok(Ok(mut reg)) = loaded else {
+        cx.t.emit(json!({"ev": "AddNode", "src": src, "number": number, "count": count.unwrap_or(0), "ports": ports.unwrap_or(""), "out": "err", "stage": "load", "msg": ""}));
+        return;
+    };
+    let node_port = ports.map(|p| PortRange::parse(p).expect("port range of the scenario"));
+    let options = AddNodeServiceOptions {
+        antnode_dir_path: root.join("data"), antnode_src_path: src_bin, auto_restart: false, auto_set_nat_flags: false, count,
+        delete_antnode_src: false, enable_metrics_server: false, env_variables: None, evm_network: EvmNetwork::ArbitrumOne, home_network: false,
+        log_format: None, max_archived_log_files: None, max_log_files: None, metrics_port: None, network_id: None, node_ip: None, node_port,
+        owner: None, peers_args: PeersArgs::default(), rewards_address: RewardsAddress::from_str("0x03B770D9cD32077cC0bF330c13C114a87643B124").expect("addr"),
+        rpc_address: None, rpc_port: None, service_data_dir_path: root.join("data"), service_log_dir_path: root.join("log"), upnp: false,
+        user: None, user_mode: true, version: "0.1.0".to_string(),
+    };
+    let rt = tokio::runtime::Builder::new_current_thread().enable_all().build().expect("runtime");
+    let r = guarded(|| rt.block_on(async { add_node(options, &mut reg, &NoOs, VerbosityLevel::Minimal).await }));
+    let added = match &r { Ok(Ok(names)) => names.len(), _ => 0 };
+    // the numbers handed out are distinct
+    let mut numbers: Vec<u16> = reg.nodes.iter().map(|n| n.number).collect();
+    numbers.sort();
+    let distinct = numbers.windows(2).all(|w| w[0] != w[1]);
+    cx.t.emit(json!({"ev": "AddNode", "src": src, "number": number, "count": count.unwrap_or(0), "ports": ports.unwrap_or(""), "out": outcome(&r), "stage": "add", "added": added,
+        "distinct": distinct, "msg": msg_of(&r)}));
+    let _ = std::fs::remove_dir_all(&root);
+}
+
+// ------------------------------------------------------------------ register signing key (ant-cli access/keys.rs)
+/// REGISTER_SIGNING_KEY read and parsed by get_register_signing_key (the variable is set in this process only)
+fn do_signing_key(cx: &mut Ctx, c: &Call, s: &str, orig: Option<&SecretKey>) {
+    if s.contains('\0') {
+        return; // not a possible value of an environment variable
+    }
+    std::env::set_var("REGISTER_SIGNING_KEY", s);
+    let r = guarded(|| keys::get_register_signing_key().map_err(|e| format!("{e}")));
+    std::env::remove_var("REGISTER_SIGNING_KEY");
+    let rt = match (&r, orig) {
+        (Ok(Ok(k)), Some(o)) => if k == o { "same" } else { "diff" },
+        (Ok(Ok(k)), None) => match guarded(|| SecretKey::from_hex(&k.to_hex())) { Ok(Ok(k2)) => if k2 == *k { "same" } else { "diff" }, Ok(Err(_)) => "err", Err(_) => "panic" },
+        (Ok(Err(_)), Some(_)) => "err",
+        _ => "na",
+    };
+    cx.log_text(c, s, outcome(&r), rt, &msg_of(&r), json!({}));
+}
+
 fn inc_event(cx: &mut Ctx, p: Option<u16>, src: &str) {
     let r = guarded(|| increment_port_option(p));
     let (out, outhas, outp) = match &r { Ok(Some(q)) => ("ok", true, *q), Ok(None) => ("ok", false, 0), Err(_) => ("panic", false, 0) };
@@ -314,8 +423,31 @@ fn valid_peer(r: &mut StdRng) -> String {
     b.extend_from_slice(&d);
     PeerId::from_bytes(&b).expect("peer id").to_string()
 }
+/// an ed25519 peer id (identity multihash of the protobuf-encoded public key): prints as 12D3KooW...
+fn ed_peer(r: &mut StdRng) -> String {
+    let mut b = vec![0x00u8, 0x24, 0x08, 0x01, 0x12, 0x20];
+    let mut d = [0u8; 32];
+    r.fill_bytes(&mut d);
+    b.extend_from_slice(&d);
+    let s = PeerId::from_bytes(&b).expect("ed25519 peer id").to_string();
+    assert!(s.starts_with("12D3KooW"), "identity peer id {s}");
+    s
+}
+fn ip4_udp(r: &mut StdRng) -> String {
+    format!("/ip4/10.{}.{}.{}/udp/{}", r.gen_range(0..256), r.gen_range(0..256), r.gen_range(0..256), pick(r, &["0", "1", "1024", "65535"]))
+}
 fn maddr_segment(r: &mut StdRng, seg: &str) -> String {
     match seg {
+        // complete addresses
+        "fullquic" => format!("{}/quic-v1/p2p/{}", ip4_udp(r), valid_peer(r)),
+        "fullws" => format!("/ip4/10.{}.{}.{}/tcp/{}/ws/p2p/{}", r.gen_range(0..256), r.gen_range(0..256), r.gen_range(0..256), pick(r, &["0", "80", "65535"]), valid_peer(r)),
+        "fulled" => format!("{}/quic-v1/p2p/{}", ip4_udp(r), ed_peer(r)),
+        "relay" => {
+            let (a, b) = if r.gen_bool(0.5) { (valid_peer(r), ed_peer(r)) } else { (ed_peer(r), valid_peer(r)) };
+            format!("{}/quic-v1/p2p/{a}/p2p-circuit/p2p/{b}", ip4_udp(r))
+        }
+        "bare" => format!("{}/quic-v1", ip4_udp(r)),
+        "p2ped" => format!("/p2p/{}", ed_peer(r)),
         "ip4" => format!("/ip4/10.{}.{}.{}", r.gen_range(0..256), r.gen_range(0..256), r.gen_range(0..256)),
         "ip6" => "/ip6/::1".into(),
         "dns" => "/dns/example.com".into(),
@@ -333,6 +465,37 @@ fn maddr_segment(r: &mut StdRng, seg: &str) -> String {
         other => panic!("unknown multiaddr segment {other}"),
     }
 }
+/// What libp2p (trusted) says about the input and the crafted address: peer ids of the /p2p components as small
+/// integers in order of first appearance in the input (0 = not in the input), relay shape, canonical shape.
+fn craft_obs(s: &str, ignore: bool, out: Option<&Multiaddr>) -> Value {
+    let Ok(input) = s.parse::<Multiaddr>() else {
+        let outp: Vec<u32> = out.map(|m| m.iter().filter(|p| matches!(p, Protocol::P2p(_))).map(|_| 0).collect()).unwrap_or_default();
+        return json!({"inp": [], "relay": false, "canon": false, "ident": false, "outp": outp});
+    };
+    let protos: Vec<Protocol> = input.iter().collect();
+    let mut ids: Vec<PeerId> = vec![];
+    let mut inp: Vec<u32> = vec![];
+    for p in &protos {
+        if let Protocol::P2p(id) = p {
+            if !ids.contains(id) {
+                ids.push(*id);
+            }
+            inp.push(ids.iter().position(|x| x == id).expect("id") as u32 + 1);
+        }
+    }
+    let shape: String = protos.iter().map(|p| match p {
+        Protocol::Ip4(_) => '4', Protocol::Udp(_) => 'u', Protocol::Tcp(_) => 't', Protocol::QuicV1 => 'q', Protocol::Ws(_) => 'w',
+        Protocol::P2p(_) => 'p', Protocol::P2pCircuit => 'c', _ => '?',
+    }).collect();
+    let transport = ["4u", "4uq", "4t", "4tw"];
+    let canon = transport.iter().any(|t| shape == format!("{t}p") || (ignore && shape == *t));
+    let relay = transport.iter().any(|t| shape == format!("{t}pcp"));
+    let outp: Vec<u32> = out.map(|m| m.iter().filter_map(|p| match p {
+        Protocol::P2p(id) => Some(ids.iter().position(|x| *x == id).map(|i| i as u32 + 1).unwrap_or(0)),
+        _ => None,
+    }).collect()).unwrap_or_default();
+    json!({"inp": inp, "relay": relay, "canon": canon, "ident": out == Some(&input), "outp": outp})
+}
 fn do_craft(cx: &mut Ctx, c: &Call, s: &str, ignore_peer_id: bool) {
     let r = guarded(|| craft_valid_multiaddr_from_str(s, ignore_peer_id).ok_or(()));
     let rt = match &r {
@@ -343,7 +506,34 @@ fn do_craft(cx: &mut Ctx, c: &Call, s: &str, ignore_peer_id: bool) {
         },
         _ => "na",
     };
-    cx.log_text(c, s, outcome(&r), rt, &msg_of(&r), json!({"ignore": ignore_peer_id}));
+    let mut extra = craft_obs(s, ignore_peer_id, match &r { Ok(Ok(m)) => Some(m), _ => None });
+    extra["ignore"] = json!(ignore_peer_id);
+    cx.log_text(c, s, outcome(&r), rt, &msg_of(&r), extra);
+}
+/// ANT_PEERS (a comma separated list) read by PeersArgs::read_bootstrap_addr_from_env. The variable is set in
+/// this (single-threaded) process only and removed again.
+fn env_peers_event(cx: &mut Ctx, list: &std::ffi::OsStr, src: &str) {
+    std::env::set_var(ANT_PEERS_ENV, list);
+    let r = guarded(PeersArgs::read_bootstrap_addr_from_env);
+    std::env::remove_var(ANT_PEERS_ENV);
+    let text = list.to_string_lossy().to_string();
+    // the items that are addresses on their own (none when the value is not UTF-8: there is no list then)
+    let nok = match list.to_str() {
+        Some(t) => t.split(',').filter(|i| matches!(guarded(|| craft_valid_multiaddr_from_str(i, false)), Ok(Some(_)))).count(),
+        None => 0,
+    };
+    let (out, nout, msg) = match &r { Ok(v) => ("ok", v.len(), String::new()), Err(m) => ("panic", 0, m.chars().take(100).collect()) };
+    // every returned address is one an item gives, in order
+    let same = match (&r, list.to_str()) {
+        (Ok(v), Some(t)) => {
+            let want: Vec<Multiaddr> = t.split(',').filter_map(|i| craft_valid_multiaddr_from_str(i, false)).collect();
+            want == v.iter().map(|a| a.addr.clone()).collect::<Vec<_>>()
+        }
+        (Ok(v), None) => v.is_empty(),
+        _ => false,
+    };
+    cx.t.emit(json!({"ev": "EnvPeers", "src": src, "out": out, "nitems": text.split(',').count(), "nok": nok, "same": same,
+        "nout": nout, "len": text.chars().count(), "text": text.chars().take(64).collect::<String>(), "msg": msg}));
 }
 
 // ------------------------------------------------------------------ files
@@ -418,8 +608,13 @@ fn cache_keys(d: &std::collections::HashMap<PeerId, ant_bootstrap::BootstrapAddr
     d.values().flat_map(|a| a.0.iter().map(|b| b.addr.to_string())).collect()
 }
 fn do_cache_load(cx: &mut Ctx, c: &Call, bytes: &[u8], max_addrs: usize) {
+    do_cache_load_cfg(cx, c, bytes, max_addrs, None)
+}
+/// max_peers: Some(n) makes the third stage of the clean-up (removal of the oldest peers) run on small files
+fn do_cache_load_cfg(cx: &mut Ctx, c: &Call, bytes: &[u8], max_addrs: usize, max_peers: Option<usize>) {
     let p = cx.scratch_file(bytes);
-    let cfg = BootstrapCacheConfig::empty().with_cache_path(&p).with_addrs_per_peer(max_addrs);
+    let with_peers = |cfg: BootstrapCacheConfig| match max_peers { Some(n) => cfg.with_max_peers(n), None => cfg };
+    let cfg = with_peers(BootstrapCacheConfig::empty().with_cache_path(&p).with_addrs_per_peer(max_addrs));
     let r = guarded(|| BootstrapCacheStore::load_cache_data(&cfg));
     let rt = match &r {
         // save what was loaded and load it again: same peers and addresses
@@ -430,7 +625,7 @@ fn do_cache_load(cx: &mut Ctx, c: &Call, bytes: &[u8], max_addrs: usize) {
             match serde_json::to_string(d) {
                 Ok(text) => {
                     std::fs::write(&p2, text).expect("write");
-                    let cfg2 = BootstrapCacheConfig::empty().with_cache_path(&p2).with_addrs_per_peer(max_addrs);
+                    let cfg2 = with_peers(BootstrapCacheConfig::empty().with_cache_path(&p2).with_addrs_per_peer(max_addrs));
                     match guarded(|| BootstrapCacheStore::load_cache_data(&cfg2)) {
                         Ok(Ok(d2)) => if cache_keys(&d2.peers) == want { "same" } else { "diff" },
                         Ok(Err(_)) => "err",
@@ -478,7 +673,7 @@ fn sample_registry(r: &mut StdRng, path: &Path, variant: u64) -> NodeRegistry {
         user_mode: variant % 2 == 1,
         version: "0.1.0".to_string(),
     };
-    NodeRegistry {
+    let mut reg = NodeRegistry {
         auditor: None,
         daemon: None,
         environment_variables: if variant % 2 == 0 { None } else { Some(vec![("K".into(), "v=\n".into())]) },
@@ -486,6 +681,139 @@ fn sample_registry(r: &mut StdRng, path: &Path, variant: u64) -> NodeRegistry {
         nat_status: None,
         nodes: (1..=(variant % 3) as u16 + 1).map(|i| mk(i, r)).collect(),
         save_path: path.to_path_buf(),
+    };
+    if variant % 4 == 3 {
+        enrich(&mut reg, r);
+    }
+    reg
+}
+/// every optional part of a registry present: daemon, faucet, auditor, NAT status, a custom EVM network, and
+/// every optional field of every node set
+fn enrich(reg: &mut NodeRegistry, r: &mut StdRng) {
+    reg.auditor = Some(AuditorServiceData { auditor_path: "/usr/bin/auditor".into(), log_dir_path: "/var/log/auditor".into(), pid: Some(u32::MAX),
+        service_name: "auditor".into(), status: ServiceStatus::Stopped, user: "ant".into(), version: "0.1.0".into() });
+    reg.daemon = Some(DaemonServiceData { daemon_path: "/usr/bin/antctld".into(), endpoint: Some(SocketAddr::new(IpAddr::V4(Ipv4Addr::new(0, 0, 0, 0)), 65535)),
+        pid: Some(0), service_name: "antctld".into(), status: ServiceStatus::Running, version: "0.1.0".into() });
+    reg.faucet = Some(FaucetServiceData { faucet_path: "/usr/bin/faucet".into(), local: true, log_dir_path: "/var/log/faucet".into(), pid: None,
+        service_name: "faucet".into(), status: ServiceStatus::Added, user: "ant".into(), version: "0.1.0".into() });
+    reg.nat_status = Some([NatDetectionStatus::Public, NatDetectionStatus::UPnP, NatDetectionStatus::Private][r.gen_range(0..3)].clone());
+    reg.environment_variables = Some(vec![("K".into(), "v".into()), ("".into(), "".into())]);
+    for (i, n) in reg.nodes.iter_mut().enumerate() {
+        n.evm_network = EvmNetwork::new_custom("http://localhost:8545/", "0x5FbDB2315678afecb367f032d93F642f64180aa3", "0x8464135c8F25Da09e49BC8782676a84730C318bC");
+        n.connected_peers = Some(vec![PeerId::from_str(&valid_peer(r)).expect("peer"), PeerId::from_str(&ed_peer(r)).expect("peer")]);
+        n.listen_addr = Some(vec![format!("/ip4/127.0.0.1/udp/{}/quic-v1", 1000 + i).parse().expect("addr"), "/ip4/10.0.0.1/tcp/80/ws".parse().expect("addr")]);
+        n.log_format = Some(if i % 2 == 0 { LogFormat::Json } else { LogFormat::Default });
+        n.max_archived_log_files = Some(usize::MAX);
+        n.max_log_files = Some(1);
+        n.metrics_port = Some(65535);
+        n.owner = Some("owner".into());
+        n.network_id = Some(255);
+        n.node_ip = Some(Ipv4Addr::new(255, 255, 255, 255));
+        n.node_port = Some(65535);
+        n.peer_id = Some(PeerId::from_str(&ed_peer(r)).expect("peer"));
+        n.pid = Some(u32::MAX);
+        n.reward_balance = Some(AttoTokens::from_atto(ant_evm::Amount::MAX));
+        n.user = Some("ant".into());
+    }
+}
+
+// ------------------------------------------------------------------ invalid field values inside valid files
+fn obj<'a>(v: &'a mut Value, what: &str) -> &'a mut serde_json::Map<String, Value> {
+    v.as_object_mut().unwrap_or_else(|| panic!("{what} is not an object"))
+}
+/// replace the value of an existing key (a mutation that silently does nothing would be a blind spot)
+fn set_key(v: &mut Value, key: &str, new: Value) {
+    let o = obj(v, key);
+    assert!(o.contains_key(key), "no field {key} to mutate");
+    o.insert(key.to_string(), new);
+}
+fn registry_field(reg: &mut Value, f: &str) {
+    if let Some((key, new)) = match f {
+        "nat_bad" => Some(("nat_status", json!("Symmetric"))),
+        "daemon_bad" => Some(("daemon", json!({"daemon_path": "/x", "endpoint": "127.0.0.1:99999", "pid": -1, "service_name": "d", "status": "Running", "version": "1"}))),
+        _ => None,
+    } {
+        return set_key(reg, key, new);
+    }
+    let node = reg.get_mut("nodes").and_then(|n| n.get_mut(0)).expect("first node");
+    let (key, new) = match f {
+        "pid_bad" => ("peer_id", json!("notanid")),
+        "pid_empty" => ("peer_id", json!("")),
+        "pid_num" => ("peer_id", json!(5)),
+        "cp_empty" => ("connected_peers", json!([""])),
+        "cp_bad" => ("connected_peers", json!(["12D3KooW", "Qm"])),
+        "cp_num" => ("connected_peers", json!([1])),
+        "rpc_port" => ("rpc_socket_addr", json!("1.2.3.4:65536")),
+        "rpc_noport" => ("rpc_socket_addr", json!("1.2.3.4")),
+        "ip_256" => ("node_ip", json!("256.0.0.1")),
+        "ip_short" => ("node_ip", json!("1.2.3")),
+        "listen_short" => ("listen_addr", json!(["/ip4"])),
+        "listen_bad" => ("listen_addr", json!(["garbage", ""])),
+        "num_max" => ("number", json!(65535)),
+        "num_over" => ("number", json!(65536)),
+        "port_over" => ("node_port", json!(65536)),
+        "evm_bad" => ("evm_network", json!({"Custom": {"rpc_url_http": "not a url", "payment_token_address": "0x12", "data_payments_address": "zz"}})),
+        "status_bad" => ("status", json!("Exploded")),
+        other => panic!("unknown registry field mutation {other}"),
+    };
+    set_key(node, key, new);
+}
+fn cache_field(cache: &mut Value, f: &str, r: &mut StdRng) {
+    let peers = obj(cache.get_mut("peers").expect("peers"), "peers");
+    // the first peer that still has an address
+    let k0 = peers.iter().find(|(_, a)| a.as_array().is_some_and(|a| !a.is_empty())).map(|(k, _)| k.clone()).expect("a peer with an address");
+    if let Some(newkey) = match f { "key_notid" => Some("notanid".to_string()), "key_empty" => Some(String::new()), "key_other" => Some(valid_peer(r)), _ => None } {
+        let v = peers.remove(&k0).expect("peer");
+        peers.insert(newkey, v);
+        return;
+    }
+    if f == "addrs_empty" {
+        peers.insert(k0, json!([]));
+        return;
+    }
+    let first = peers.get_mut(&k0).and_then(|a| a.get_mut(0)).expect("first address");
+    match f {
+        "addr_nop2p" => set_key(first, "addr", json!("/ip4/10.0.0.1/udp/1000/quic-v1")),
+        "addr_short" => set_key(first, "addr", json!("/ip4")),
+        "cnt_neg" => set_key(first, "success_count", json!(-1)),
+        // ONE last-seen time at the edge of the representable range among fresh ones
+        "edge1_tmax" | "edge1_tnear" | "edge1_tday" | "edge1_tu64" | "edge1_zero" => {
+            let v = match f { "edge1_tmax" => json!(9223372036854775807u64), "edge1_tnear" => json!(9223372036854775806u64),
+                "edge1_tday" => json!(9223372036854689408u64), "edge1_tu64" => json!(18446744073709551615u64), _ => json!(0) };
+            set_key(first.get_mut("last_seen").expect("last_seen"), "secs_since_epoch", v);
+        }
+        other => panic!("unknown cache field mutation {other}"),
+    }
+}
+fn field_case(cx: &mut Ctx, parser: &str, wordv: &Value, full_cache: &[u8]) {
+    let word = word_of(wordv);
+    let fmt = word.len() == 1;
+    if parser == "cache_load" {
+        assert_eq!(word[0], "c3", "cache base");
+        let mut v: Value = serde_json::from_slice(full_cache).expect("cache json");
+        for f in &word[1..] {
+            cache_field(&mut v, f, &mut cx.r);
+        }
+        // the untouched base is the file as the store wrote it
+        let b = if fmt { full_cache.to_vec() } else { serde_json::to_vec(&v).expect("json") };
+        for (m, (addrs, peers)) in [(6usize, None), (1, Some(1usize)), (6, Some(1)), (1, None)].into_iter().enumerate() {
+            let c = Call { parser, word: wordv, m: m as u64, src: "tlc", fmt, pw: "field" };
+            do_cache_load_cfg(cx, &c, &b, addrs, peers);
+        }
+    } else {
+        let reg = match word[0].as_str() {
+            "plain" => sample_registry(&mut cx.r, &cx.dir.join("reg.json"), 0),
+            "rich" => sample_registry(&mut cx.r, &cx.dir.join("reg.json"), 7),
+            other => panic!("unknown registry base {other}"),
+        };
+        let full = serde_json::to_string(&reg).expect("registry json");
+        let mut v: Value = serde_json::from_str(&full).expect("registry json");
+        for f in &word[1..] {
+            registry_field(&mut v, f);
+        }
+        let b = if fmt { full.into_bytes() } else { serde_json::to_vec(&v).expect("json") };
+        let c = Call { parser, word: wordv, m: 0, src: "tlc", fmt, pw: "field" };
+        do_registry(cx, &c, &b);
     }
 }
 fn registry_rt(reg: &NodeRegistry) -> &'static str {
@@ -623,6 +951,9 @@ fn run_case(cx: &mut Ctx, case: &Value, members: u64, full_cache: &[u8]) {
     let word = word_of(&wordv);
     let pw = case["pw"].as_str().unwrap_or("na").to_string();
     let fmt = word.len() == 1 && word[0] == "FULL";
+    if pw == "field" {
+        return field_case(cx, &parser, &wordv, full_cache);
+    }
     match parser.as_str() {
         "reg_from_hex" | "pad_from_hex" | "str_to_addr" | "dmc_from_hex" => {
             for m in 0..members {
@@ -659,8 +990,9 @@ fn run_case(cx: &mut Ctx, case: &Value, members: u64, full_cache: &[u8]) {
             for m in 0..(members / 4).max(2) {
                 let b: Vec<u8> = word.iter().flat_map(|g| file_segment(&mut cx.r, g, full_cache)).collect();
                 let c = Call { parser: &parser, word: &wordv, m, src: "tlc", fmt, pw: "na" };
-                // member 0 with the default address limit (round trip comparable), member 1 with limit 1 (forces the sort)
-                do_cache_load(cx, &c, &b, if m % 2 == 0 { 6 } else { 1 });
+                // member 0 with the default limits (round trip comparable), member 1 with one address per peer (forces the
+                // sort) and one peer (forces the removal of the oldest peers)
+                if m % 2 == 0 { do_cache_load(cx, &c, &b, 6) } else { do_cache_load_cfg(cx, &c, &b, 1, Some(1)) }
             }
         }
         "registry_load" | "registry_from_json" => {
@@ -732,6 +1064,83 @@ fn class_and_random(cx: &mut Ctx, n_rand: usize, full_cache: &[u8]) {
     for p in [None, Some(0u16), Some(1), Some(65534), Some(65535)] {
         inc_event(cx, p, "class");
     }
+    // add_node on a loaded registry: ordinary numbers always; numbers and counts at the edge of u16 (a suspected
+    // overflow of the unchanged tree, see the report) only when VERIF_ENABLE_ADDNODE_U16 is set
+    for (number, count, ports) in [(1u16, None, None), (7, Some(2), Some("12000-12001")), (1, Some(1), Some("65535")), (65533, Some(1), None)] {
+        add_node_event(cx, number, count, ports, "class");
+    }
+    if std::env::var("VERIF_ENABLE_ADDNODE_U16").is_ok_and(|v| !v.is_empty() && v != "0") {
+        for (number, count, ports) in [(65535u16, None, None), (65534, Some(1), None), (65534, Some(2), None), (1, Some(65535), Some("1-65535")), (65535, Some(65535), None)] {
+            add_node_event(cx, number, count, ports, "class");
+        }
+    }
+    // ANT_PEERS: lists of 0-4 items, each a word of one or two multiaddress segments
+    {
+        use std::os::unix::ffi::OsStringExt;
+        let segs = ["fullquic", "fullws", "fulled", "relay", "bare", "ip4", "udp", "p2p", "p2pbad", "junk", "u8", "slash", "tcpbig"];
+        let mut lists: Vec<String> = vec![String::new(), ",".into(), ",,".into(), " ".into()];
+        for n in 1..=4usize {
+            for _ in 0..12 {
+                let items: Vec<String> = (0..n).map(|_| {
+                    let k = cx.r.gen_range(1..=2);
+                    let mut it: String = (0..k).map(|_| { let g = segs[cx.r.gen_range(0..segs.len())]; maddr_segment(&mut cx.r, g) }).collect();
+                    it.retain(|ch| ch != '\0');
+                    match cx.r.gen_range(0..8) { 0 => format!(" {it}"), 1 => format!("{it} "), 2 => format!("{it}\n"), _ => it }
+                }).collect();
+                lists.push(items.join(","));
+            }
+        }
+        for l in lists {
+            env_peers_event(cx, std::ffi::OsStr::new(&l), "class");
+        }
+        let valid = maddr_segment(&mut cx.r, "fullquic").into_bytes();
+        for bad in [vec![0xffu8], [valid.clone(), vec![b',', 0xff, 0xfe]].concat(), [vec![0xc3u8, b','], valid].concat()] {
+            env_peers_event(cx, &std::ffi::OsString::from_vec(bad), "class");
+        }
+    }
+    // complete multiaddresses of every composite form, both settings of the ignore flag
+    for i in 0..30u64 {
+        for g in ["fullquic", "fullws", "fulled", "relay", "bare"] {
+            let s = maddr_segment(&mut cx.r, g);
+            let wv = json!([g]);
+            do_craft(cx, &Call { parser: "craft_multiaddr", word: &wv, m: i, src: "class", fmt: false, pw: "na" }, &s, i % 2 == 0);
+            // the same address in a non-canonical order / with the transport after the peer id
+            if g == "fullquic" && i < 6 {
+                let parts: Vec<&str> = s.split("/p2p/").collect();
+                let swapped = format!("/p2p/{}{}", parts[1], parts[0]);
+                let wv = json!(["p2p-first"]);
+                do_craft(cx, &Call { parser: "craft_multiaddr", word: &wv, m: i, src: "class", fmt: false, pw: "na" }, &swapped, i % 2 == 0);
+            }
+        }
+    }
+    // RegisterAddress: Display is documented as "hex format that can be parsed by RegisterAddress::from_hex"
+    for _ in 0..8 {
+        let v = RegisterAddress::new(XorName::random(&mut cx.r), SecretKey::random().public_key());
+        let wv = json!(["DISPLAY"]);
+        do_reg(cx, &Call { parser: "reg_from_hex", word: &wv, m: 0, src: "class", fmt: true, pw: "na" }, &format!("{v}"), Some(v));
+    }
+    // register signing key from the environment: lengths around 32 bytes, foreign characters, keys outside the field
+    {
+        let wv = json!(["FULL"]);
+        for m in 0..4 {
+            let k = SecretKey::random();
+            do_signing_key(cx, &Call { parser: "signing_key", word: &wv, m, src: "class", fmt: true, pw: "na" }, &k.to_hex(), Some(&k));
+            let full = k.to_hex();
+            for (name, text) in [("upper", full.to_uppercase()), ("0x", format!("0x{full}")), ("nl", format!("{full}\n")), ("sp", format!(" {full}")), ("cut1", cut(&full, 1)),
+                                 ("cut2", cut(&full, 2)), ("plus1", format!("{full}0")), ("plus2", format!("{full}00")), ("twice", format!("{full}{full}")), ("u8", format!("{}é", cut(&full, 2)))] {
+                let wv = json!(["class", name]);
+                do_signing_key(cx, &Call { parser: "signing_key", word: &wv, m, src: "class", fmt: false, pw: "na" }, &text, None);
+            }
+        }
+        for text in ["".to_string(), "0".repeat(64), "f".repeat(64), "F".repeat(64), "0".repeat(63) + "1",
+                     // the order of the BLS12-381 scalar field, one less, one more
+                     "73eda753299d7d483339d80809a1d80553bda402fffe5bfeffffffff00000001".to_string(),
+                     "73eda753299d7d483339d80809a1d80553bda402fffe5bfeffffffff00000000".to_string(),
+                     "73eda753299d7d483339d80809a1d80553bda402fffe5bfeffffffff00000002".to_string(), "g".repeat(64), "0".repeat(10_000)] {
+            let wv = json!(["class", "edge"]);
+            do_signing_key(cx, &Call { parser: "signing_key", word: &wv, m: 0, src: "class", fmt: false, pw: "na" }, &text, None);
+        }
+    }
     // crafted cache files at the counter boundaries, loaded with both address limits
     for (s, f) in [(u32::MAX, 1u32), (u32::MAX, u32::MAX), (1 << 31, 1 << 31), (u32::MAX - 1, 1), (0, u32::MAX)] {
         let text = String::from_utf8_lossy(full_cache).replace("\"success_count\": 1", &format!("\"success_count\": {s}")).replace("\"failure_count\": 0", &format!("\"failure_count\": {f}"));
@@ -766,6 +1175,10 @@ fn class_and_random(cx: &mut Ctx, n_rand: usize, full_cache: &[u8]) {
         port_events(cx, &Call { parser: "port_parse", word: &wr, m, src: "random", fmt: false, pw: "na" }, &short);
         do_atto(cx, &Call { parser: "atto_from_str", word: &wr, m, src: "random", fmt: false, pw: "na" }, &s);
         do_craft(cx, &Call { parser: "craft_multiaddr", word: &wr, m, src: "random", fmt: false, pw: "na" }, &s, i % 2 == 0);
+        do_signing_key(cx, &Call { parser: "signing_key", word: &wr, m, src: "random", fmt: false, pw: "na" }, &s, None);
+        if !s.contains('\0') {
+            env_peers_event(cx, std::ffi::OsStr::new(&s), "random");
+        }
         do_cache_load(cx, &Call { parser: "cache_load", word: &wr, m, src: "random", fmt: false, pw: "na" }, &b, 1);
         do_registry(cx, &Call { parser: "registry_load", word: &wr, m, src: "random", fmt: false, pw: "na" }, &b);
         do_registry(cx, &Call { parser: "registry_from_json", word: &wr, m, src: "random", fmt: false, pw: "na" }, s.as_bytes());
@@ -790,7 +1203,9 @@ fn main() {
     let seed = vtrace::seed_from_env();
     let n_rand: usize = arg("--random").and_then(|s| s.parse().ok()).unwrap_or(200);
     let members: u64 = arg("--members").and_then(|s| s.parse().ok()).unwrap_or(8);
-    let mut cx = Ctx { t: Trace::create(&out), r: rng(seed), dir: dir.clone(), nfile: 0, pool: Default::default() };
+    let mut cx = Ctx { t: Trace::create(&out), r: rng(seed), dir: dir.clone(), nfile: 0, pool: Default::default(), avail_nodes: vec![] };
+    // variant 1: ports 0 / 65535 recorded (metrics 0, node 65535, rpc 65535); variant 3: two nodes, rpc 8081
+    cx.avail_nodes = [1u64, 3].iter().map(|v| sample_registry(&mut rng(seed ^ 0x5eed), &dir.join("reg.json"), *v).nodes).collect();
     let full_cache = cache_full(&mut cx, 3);
     let mut ncases = 0u64;
     if let Some(cases) = arg("--cases") {
